@@ -4,6 +4,9 @@ package main
 
 import (
 	"flag"
+	"runtime"
+	"sync/atomic"
+	"time"
 	"github.com/rs/zerolog"
 	"fmt"
 	"os"
@@ -38,6 +41,7 @@ func main() {
 		os.Exit(2)
 	}
 	res := lp.NewResult(prop)
+	watchdog(res, prop)
 	m(res)
 	if *outPath != "" {
 		if err := res.Write(*outPath); err != nil {
@@ -46,6 +50,29 @@ func main() {
 		}
 	}
 	fmt.Printf("%s: evaluations=%d nontrivial=%d findings=%d\n", prop, res.Evaluations, res.Nontrivial, len(res.Findings))
+}
+
+// current input of a guarded decode, for the memory watchdog
+var currentInput atomic.Value
+
+// watchdog: a decode that blows the heap up cannot be cancelled; record the input as a violation, write the result and stop.
+func watchdog(res *lp.Result, prop string) {
+	go func() {
+		var ms runtime.MemStats
+		for {
+			time.Sleep(100 * time.Millisecond)
+			runtime.ReadMemStats(&ms)
+			if ms.HeapAlloc > 6<<30 {
+				in, _ := currentInput.Load().(string)
+				res.Add(lp.Finding{Kind: "violation", What: "decoder allocates more than 6 GiB for a small input", Input: in})
+				if *outPath != "" {
+					res.Write(*outPath)
+				}
+				fmt.Printf("%s: aborted by the memory watchdog on input %s\n", prop, in)
+				os.Exit(0)
+			}
+		}
+	}()
 }
 
 func thorough() bool { return *tier == "thorough" }
